@@ -4,6 +4,7 @@ import Winter.Model.Rescue
 import WinterProofs.Lemmas.C07F64Z
 import WinterProofs.Lemmas.C11MdsCommon
 import WinterProofs.Lemmas.C11Misc
+import WinterProofs.Lemmas.C11Sem
 import Mathlib.Tactic.LinearCombination
 import Mathlib.Tactic.Ring
 
@@ -37,6 +38,13 @@ noncomputable def dotZ (row : List Nat) (v : List (ZMod P)) : ZMod P :=
 /-- the reference matrix-vector product over `ZMod p` -/
 noncomputable def matVecZ (m : List (List Nat)) (v : List (ZMod P)) : List (ZMod P) :=
   m.map (fun r => dotZ r v)
+
+/-- the 64-bit field as the sponge sees it (valid raw words are the canonical ones) -/
+noncomputable def S64 : Sem.FieldSem Model.F64.impl P where
+  Inv := Inv
+  val := val
+  add_ok := fun a b ha hb => ⟨add_inv a b ha hb, val_add a b ha hb⟩
+  new_ok := fun v hv => ⟨new_inv v (by norm_num; exact hv), val_new v (by norm_num; exact hv)⟩
 
 /-- unfolding lemmas with proof terms (so that `simp` rewrites with them instead of unfolding
     definitionally, which the kernel would have to re-check on terms with huge exponents) -/
